@@ -64,6 +64,19 @@ pub fn build(case: &GraphCase) -> Built {
             }
             Built::U(af, labels)
         }
+        Pres::IccmaRepeated { line, times } => {
+            let mut txt = iccma_text(g);
+            if !g.att.is_empty() {
+                let (a, b) = g.att[crate::gen::idx(*line, g.att.len())];
+                let l = format!("{} {}\n", a as usize + 1, b as usize + 1);
+                txt.reserve(l.len() * *times as usize);
+                for _ in 1..*times {
+                    txt.push_str(&l);
+                }
+            }
+            let af = Iccma23Reader::default().read(&mut txt.as_bytes()).expect("well-formed ICCMA text");
+            Built::U(af, (1..=n).collect())
+        }
         Pres::Iccma => {
             let txt = iccma_text(g);
             let af = Iccma23Reader::default().read(&mut txt.as_bytes()).expect("well-formed ICCMA text");
